@@ -607,7 +607,7 @@ func writeReplay(g *Gen, dir, id string, o *Obligation) (path string, confirmed 
 		rec["counterexample"] = o.Values
 		rec["counterexample_kind"] = "candidate: obtained with the quantified assumptions dropped; believed only if the replay reproduces it"
 	}
-	if rp := findReplay(o); rp != nil && (o.Status == "sat" || o.Candidate) {
+	if rp := findReplay(o); rp != nil && (o.Status == "sat" || o.Candidate || rp.fixed) {
 		ok, out := rp.run(g, o, o.Values)
 		rec["replay_template"] = rp.name
 		rec["replay_output"] = out
